@@ -216,3 +216,57 @@ func VP_C01_legacy_dead_tunnel() {
 	vpAssert(len(out2.out) == 0 && in2.pos == 0, "packets-for-an-ended-tunnel-are-not-answered")
 	vpAssert(len(vpDialLog) == dials1, "an-ended-tunnel-opens-no-further-backend-connection")
 }
+
+
+//vp:property C11
+//vp:bounds legacy transport: a client opens RDG_OUT_DATA (accepted, remembered under its connection id) and goes away before it ever opens RDG_IN_DATA; then enough time passes for the connection cache to expire and sweep its entries. Variant: the RDG_IN_DATA request does come, but its connection cannot be hijacked
+//vp:assume go-cache: an entry is dropped after its lifetime (5 min, swept every 10 min) and the function registered with OnEvicted is called for it; "bounded time" = by then
+//vp:reach forgotten
+func VP_C11_orphaned_out() {
+	vpResetHandlers()
+	g := &Gateway{}
+	id := vpUser()
+	mk := func(method string) *http.Request {
+		r := &http.Request{Method: method, Header: http.Header{"Rdg-Connection-Id": {"conn-1"}}}
+		return identity.AddToRequestCtx(id, r)
+	}
+	out := &vpTransport{}
+	g.HandleGatewayProtocol(&vpHTTPW{hdr: http.Header{}, tr: out}, mk(MethodRDGOUT))
+	vpAssert(out.accepts == 1, "legacy-out-channel-accepted")
+	if vpBool("in-request-comes-but-cannot-be-hijacked") {
+		vpHijackFails = true
+		g.HandleGatewayProtocol(&vpHTTPW{hdr: http.Header{}}, mk(MethodRDGIN))
+		vpHijackFails = false
+	}
+	// the client is gone; nothing else will ever arrive for this connection id
+	vpCacheExpireAll()
+	vpReach("forgotten")
+	vpAssert(out.closed, "out-connection-of-a-tunnel-that-never-got-its-in-channel-is-closed-once-the-tunnel-is-forgotten")
+	vpAssert(len(Connections) == 0 && vpLegacyGauge.v == 0, "nothing-registered-for-it")
+}
+
+
+//vp:property C11
+//vp:bounds websocket tunnel, full set-up; the remote desktop host then stops reading (its receive window and the gateway's send buffer are full) while the client uploads one DATA packet, after which the client drops
+//vp:assume a write to a peer that does not read blocks until the connection is closed or a write deadline set by the writer expires
+//vp:reach uploading
+func VP_C11_host_stops_reading() {
+	vpResetHandlers()
+	vpBackendStopsReading = true
+	vpAssume(!vpBool("dialfail1"))
+	tr := vpScript(5, 0) // set-up, one DATA packet, then the connection drops
+	inner := tr.gen
+	tr.gen = func(i int) []byte {
+		if i == 4 {
+			vpReach("uploading")
+			vpAssert(len(vpDialConns) == 1, "channel-open-when-the-upload-starts")
+		}
+		return inner(i)
+	}
+	vpNextTransports = []*vpTransport{tr}
+	g := &Gateway{}
+	t := &Tunnel{RDGId: "conn-1", User: vpUser(), RemoteAddr: "10.0.0.1:1"}
+	g.handleWebsocketProtocol(vpCtx(), nil, t)
+	vpRunTasks()
+	vpCheckReleased(t, []*vpTransport{tr}, "stalled-host")
+}
